@@ -55,7 +55,8 @@ class Gen:
                 arg = r.choice(POOL)
                 # inside the nil arm the argument has type nil and cannot be observed: that name is not used there
                 out.append(('switch', arg, ('var', o), [('i64', [('mark', ('var', arg))] + self.stmts(depth - 1, r.randint(0, 2), inputs, helper, forbid)),
-                                                        ('nil', [('markc', self.const())] + self.stmts(depth - 1, r.randint(0, 2), inputs, helper, tuple(forbid) + (arg,)))]))
+                                                        # (a default arm `_ =>` binds the argument at the scrutinee's type: same rule)
+                                                        ('nil' if r.random() < 0.5 else '_', [('markc', self.const())] + self.stmts(depth - 1, r.randint(0, 2), inputs, helper, tuple(forbid) + (arg,)))]))
                 out.append(('mark', ('var', arg)))       # the switch argument must not be visible any more
             elif c < 0.92 and helper is not None:
                 out.append(('mark', ('call', helper['name'], [('var', r.choice(POOL)) for _ in helper['params']])))
